@@ -10,9 +10,15 @@ Base/Res.vos Base/Res.vok Base/Res.required_vos: Base/Res.v
 Gen/Consts.vo Gen/Consts.glob Gen/Consts.v.beautified Gen/Consts.required_vo: Gen/Consts.v 
 Gen/Consts.vio: Gen/Consts.v 
 Gen/Consts.vos Gen/Consts.vok Gen/Consts.required_vos: Gen/Consts.v 
+Gen/TsigConsts.vo Gen/TsigConsts.glob Gen/TsigConsts.v.beautified Gen/TsigConsts.required_vo: Gen/TsigConsts.v 
+Gen/TsigConsts.vio: Gen/TsigConsts.v 
+Gen/TsigConsts.vos Gen/TsigConsts.vok Gen/TsigConsts.required_vos: Gen/TsigConsts.v 
 Model/NameWire.vo Model/NameWire.glob Model/NameWire.v.beautified Model/NameWire.required_vo: Model/NameWire.v Base/Res.vo Base/Octets.vo Gen/Consts.vo
 Model/NameWire.vio: Model/NameWire.v Base/Res.vio Base/Octets.vio Gen/Consts.vio
 Model/NameWire.vos Model/NameWire.vok Model/NameWire.required_vos: Model/NameWire.v Base/Res.vos Base/Octets.vos Gen/Consts.vos
+Model/TsigMsg.vo Model/TsigMsg.glob Model/TsigMsg.v.beautified Model/TsigMsg.required_vo: Model/TsigMsg.v Base/Res.vo Base/Octets.vo Base/ListX.vo Gen/Consts.vo Gen/TsigConsts.vo Model/NameWire.vo
+Model/TsigMsg.vio: Model/TsigMsg.v Base/Res.vio Base/Octets.vio Base/ListX.vio Gen/Consts.vio Gen/TsigConsts.vio Model/NameWire.vio
+Model/TsigMsg.vos Model/TsigMsg.vok Model/TsigMsg.required_vos: Model/TsigMsg.v Base/Res.vos Base/Octets.vos Base/ListX.vos Gen/Consts.vos Gen/TsigConsts.vos Model/NameWire.vos
 Proofs/NameWireP.vo Proofs/NameWireP.glob Proofs/NameWireP.v.beautified Proofs/NameWireP.required_vo: Proofs/NameWireP.v Base/ListX.vo Model/NameWire.vo Spec/NameWireS.vo Spec/NameRepr.vo
 Proofs/NameWireP.vio: Proofs/NameWireP.v Base/ListX.vio Model/NameWire.vio Spec/NameWireS.vio Spec/NameRepr.vio
 Proofs/NameWireP.vos Proofs/NameWireP.vok Proofs/NameWireP.required_vos: Proofs/NameWireP.v Base/ListX.vos Model/NameWire.vos Spec/NameWireS.vos Spec/NameRepr.vos
